@@ -112,6 +112,7 @@ fn parse_p(t: &[String], i: &mut usize) -> Prog {
 /// What the interpreter records besides running the program.
 pub struct Ctx<'e> {
     pub env: &'e [Prog],
+    pub input: RefCell<Option<String>>, // the input text, for the direct primitive oracle (None = oracle off)
     pub budget: Cell<u64>,         // remaining closure invocations; 0 => diverged
     pub diverged: Cell<bool>,
     pub contract: RefCell<Vec<String>>, // violations of the documented combinator contracts (C03 oracle)
@@ -119,7 +120,7 @@ pub struct Ctx<'e> {
 }
 impl<'e> Ctx<'e> {
     pub fn new(env: &'e [Prog], budget: u64) -> Self {
-        Ctx { env, budget: Cell::new(budget), diverged: Cell::new(false), contract: RefCell::new(vec![]), nontrivial: Cell::new(false) }
+        Ctx { env, input: RefCell::new(None), budget: Cell::new(budget), diverged: Cell::new(false), contract: RefCell::new(vec![]), nontrivial: Cell::new(false) }
     }
 }
 
@@ -140,11 +141,11 @@ pub fn run<'i>(p: &Prog, s: St<'i>, cx: &Ctx) -> ParseResult<St<'i>> {
     cx.budget.set(cx.budget.get() - 1);
     match p {
         Ok => Result::Ok(s), Err => Result::Err(s),
-        Str(x) => s.match_string(x), Ins(x) => s.match_insensitive(x),
-        Range(a, b) => s.match_range(*a..*b),
-        Cls(rs) => s.match_char_by(|c| rs.iter().any(|(a, b)| *a <= c && c <= *b)),
-        Skip(n) => s.skip(*n),
-        Until(ss) => { let v: Vec<&str> = ss.iter().map(|x| x.as_str()).collect(); s.skip_until(&v) }
+        Str(x) => matcher_checked(cx, p, s, |s| s.match_string(x)), Ins(x) => matcher_checked(cx, p, s, |s| s.match_insensitive(x)),
+        Range(a, b) => matcher_checked(cx, p, s, |s| s.match_range(*a..*b)),
+        Cls(rs) => matcher_checked(cx, p, s, |s| s.match_char_by(|c| rs.iter().any(|(a, b)| *a <= c && c <= *b))),
+        Skip(n) => matcher_checked(cx, p, s, |s| s.skip(*n)),
+        Until(ss) => { let v: Vec<&str> = ss.iter().map(|x| x.as_str()).collect(); matcher_checked(cx, p, s, |s| s.skip_until(&v)) }
         Soi => s.start_of_input(), Eoi => s.end_of_input(),
         PushLit(x) => s.stack_push_literal(x.clone()),
         Peek => s.stack_peek(), Pop => s.stack_pop(), Drop => s.stack_drop(),
@@ -198,6 +199,41 @@ pub fn run<'i>(p: &Prog, s: St<'i>, cx: &Ctx) -> ParseResult<St<'i>> {
         IfNa(a, b) => if s.atomicity() == Atomicity::NonAtomic { run(a, s, cx) } else { run(b, s, cx) },
         Call(f) => match cx.env.get(*f) { Some(q) => run(q, s, cx), None => panic!("undefined closure") },
     }
+}
+
+/// primitive contract (C03), evaluated directly on the input text (independent of the Coq model): the matcher succeeds
+/// exactly when the documented condition holds, advances over exactly the matched text, always to a char boundary,
+/// and does not move on failure
+fn matcher_checked<'i>(cx: &Ctx, p: &Prog, s: St<'i>, f: impl FnOnce(St<'i>) -> ParseResult<St<'i>>) -> ParseResult<St<'i>> {
+    let before = s.position().pos();
+    let r = f(s);
+    if cx.diverged.get() { return r; }
+    let guard = cx.input.borrow();
+    let input: &str = match guard.as_ref() { Some(i) => i.as_str(), None => return r };   // oracle not enabled by this harness
+    if before > input.len() || !input.is_char_boundary(before) { return r; }
+    let rest = &input[before..];
+    // expected outcome: Some(new position) / None = failure
+    let expected: Option<usize> = match p {
+        Prog::Str(x) => if rest.starts_with(x.as_str()) { Some(before + x.len()) } else { None },
+        Prog::Ins(x) => match rest.get(0..x.len()) { Some(t) if t.eq_ignore_ascii_case(x) => Some(before + x.len()), _ => None },
+        Prog::Range(a, b) => match rest.chars().next() { Some(c) if *a <= c && c <= *b => Some(before + c.len_utf8()), _ => None },
+        Prog::Cls(rs) => match rest.chars().next() { Some(c) if rs.iter().any(|(a, b)| *a <= c && c <= *b) => Some(before + c.len_utf8()), _ => None },
+        Prog::Skip(n) => { let mut it = rest.char_indices(); let mut end = Some(0); for _ in 0..*n { end = it.next().map(|(i, c)| i + c.len_utf8()); if end.is_none() { break; } } end.map(|e| before + e) }
+        Prog::Until(ss) => { let mut found = input.len(); for (i, _) in rest.char_indices() { if ss.iter().any(|x| rest[i..].starts_with(x.as_str())) { found = before + i; break; } } Some(found) }
+        _ => return r,
+    };
+    let (ok, after) = match &r { Result::Ok(e) => (true, e.position().pos()), Result::Err(e) => (false, e.position().pos()) };
+    let bad = match (expected, ok) {
+        (Some(e), true) if e == after => None,
+        (Some(e), true) => Some(format!("advanced to {} instead of {}", after, e)),
+        (Some(e), false) => Some(format!("failed although the text matches (expected position {})", e)),
+        (None, true) => Some(format!("succeeded (position {}) although the text does not match", after)),
+        (None, false) if after == before => None,
+        (None, false) => Some(format!("failed but moved to {}", after)),
+    };
+    let bad = bad.or_else(|| if !input.is_char_boundary(after) { Some(format!("left the position {} inside a character", after)) } else { None });
+    if let Some(b) = bad { cx.contract.borrow_mut().push(format!("primitive {} at {} {}", p.show(), before, b)); }
+    r
 }
 
 /// primitive contract (C03): a primitive that fails does not move
@@ -260,7 +296,7 @@ pub fn leaf(rng: &mut Rng, nfun: usize, depth_calls: Option<usize>) -> Prog {
     let s = |rng: &mut Rng| STRS[rng.weighted(&[6, 5, 3, 2, 2, 1, 1, 1, 1])].to_string();
     match rng.weighted(&[2, 2, 14, 4, 4, 3, 2, 3, 1, 2, 3, 3, 3, 2, 2, 2, 3, 2, 2]) {
         0 => Ok, 1 => Err, 2 => Str(s(rng)), 3 => Ins(s(rng)),
-        4 => { let rs = [('a', 'a'), ('a', 'b'), ('a', 'z'), ('é', 'é'), ('\0', '\u{10ffff}'), ('b', 'a')]; let (a, b) = rs[rng.below(6) as usize]; Range(a, b) }
+        4 => { let rs = [('a', 'a'), ('a', 'b'), ('a', 'z'), ('é', 'é'), ('\0', '\u{10ffff}'), ('b', 'a'), ('a', 'é'), ('a', 'ÿ'), ('B', 'è')]; let (a, b) = rs[rng.below(9) as usize]; Range(a, b) }
         5 => { let sets: [&[(char, char)]; 4] = [&[('\0', '\u{10ffff}')], &[('a', 'a'), ('é', 'é')], &[('A', 'Z')], &[]]; Cls(sets[rng.below(4) as usize].to_vec()) }
         6 => Skip(rng.below(3) as usize),
         7 => { let n = rng.weighted(&[1, 4, 4, 4, 2]); Until((0..n).map(|_| s(rng)).collect()) }
